@@ -198,7 +198,7 @@ def gen_fn(rng, prefilter):
     fb = rng.choice([["y"], ["y"], ["y", "z"], ["y", "v"]])
     nice = rng.chance(3, 5)
     times = [rng.range(0, 9) for _ in range(5)] + ([None, -3, 2 ** 63 - 1, -2 ** 63] if not nice else [])
-    links = [rng.choice(LINKS[:6]) for _ in range(3)] if nice else [rng.choice(LINKS) for _ in range(4)]
+    links = [rng.choice(LINKS[:6]) for _ in range(rng.choice([1, 2, 2, 3]))] if nice else [rng.choice(LINKS) for _ in range(rng.choice([2, 3, 4]))]
     zs = {}
     for ty, f in ((TA, fa), (TB, fb)):
         if rng.chance(1, 25):
@@ -207,13 +207,13 @@ def gen_fn(rng, prefilter):
         zones = []
         for _ in range(rng.choice([1, 1, 2, 3])):
             flags = "LT" if nice or rng.chance(5, 6) else rng.choice(["L", "T", "N"])
-            zones.append((flags, gen_rows(rng, f, rng.choice([0, 1, 2, 3, 4, 6]), times, links)))
+            zones.append((flags, gen_rows(rng, f, rng.choice([0, 1, 2, 3, 4, 5, 6, 8]), times, links)))
         zs[ty] = zones
     wh = None
-    if rng.chance(3, 5):
+    if rng.chance(1, 2):
         wh = gen_where(rng, rng.range(0, 3), fa, fb, conj_only=rng.chance(1, 3))
     lk = rng.choice(["FB", "PB"])
-    lim = rng.choice(["-", "-", "-", "0", "1", "2", "5"])
+    lim = rng.choice(["-", "-", "-", "-", "0", "1", "2", "5"])
     if prefilter and wh is not None:
         for ty in (TA, TB):
             if zs[ty] is not None:
